@@ -63,6 +63,21 @@ def wf_attr(a):
     if len(p) > 65535: return 'value longer than an attribute can carry'
     return None
 
+def wf_nlri(n):
+    """n as printed by the harness: what the NLRI decoders guarantee"""
+    t = n[0]
+    if t == 4: return None if n[2] <= 32 and 0 <= n[1] < 2 ** 32 else 'IPv4 prefix length %d' % n[2]
+    if t == 6: return None if n[2] <= 128 else 'IPv6 prefix length %d' % n[2]
+    if t in (14, 16):
+        ls, m = n[1], n[3]
+        w = 32 if t == 14 else 128
+        if m > w: return 'labeled prefix length %d > %d' % (m, w)
+        if len(ls) == 0: return 'empty label stack'
+        if any(not (0 <= l < 2 ** 20) for l in ls): return 'label outside 20 bits'
+        if 24 * len(ls) + m > 255: return 'label stack of %d labels does not fit the one-octet NLRI length' % len(ls)
+        return None
+    return 'unmodelled NLRI'
+
 # ---------------------------------------------------------------- rendering API values as Gallina
 def cstr(bs): return cbytes(bs)
 
@@ -101,6 +116,26 @@ def api_to_coq(x):
     if t == 14: return '(AExtCommunities %s)' % clist([extcom_to_coq(e) for e in x[1]])
     if t == 21: return '(ALargeCommunities %s)' % clist(['(%s, %s, %s)' % (cN(a), cN(b), cN(c)) for a, b, c in x[1]])
     return 'AOther'
+
+def v6bytes(a): return [(a >> (8 * (15 - k))) & 255 for k in range(16)]
+
+def nlri_to_valx(n):
+    if n[0] == 6: return [6, v6bytes(n[1]), n[2]]
+    if n[0] == 16: return [16, n[1], v6bytes(n[2]), n[3]]
+    return n
+
+def nlri_to_coq(n):
+    if n[0] == 4: return '(NV4 %s %s)' % (cN(n[1]), cN(n[2]))
+    if n[0] == 6: return '(NV6 %s %s)' % (cN(n[1]), cN(n[2]))
+    if n[0] == 14: return '(NLab4 %s %s %s)' % (clist([cN(l) for l in n[1]]), cN(n[2]), cN(n[3]))
+    if n[0] == 16: return '(NLab6 %s %s %s)' % (clist([cN(l) for l in n[1]]), cN(n[2]), cN(n[3]))
+    raise ValueError(n)
+
+def api_nlri_to_coq(x):
+    if x[0] == 0: return 'PMissing'
+    if x[0] == 1: return '(PPrefix %s %s)' % (cstr(x[1]), cN(x[2]))
+    if x[0] == 2: return '(PLabeled %s %s %s)' % (clist([cN(l) for l in x[1]]), cstr(x[2]), cN(x[3]))
+    return 'POther'
 
 API_NAMES = {0: 'missing', 1: 'unknown', 2: 'origin', 3: 'as_path', 4: 'next_hop', 5: 'med', 6: 'local_pref',
              7: 'atomic_aggregate', 8: 'aggregator', 9: 'communities', 10: 'originator_id', 11: 'cluster_list',
@@ -204,6 +239,52 @@ def gen_wire_case(rng, code=None):
         flags |= EXT
     return {'k': 0, 'flags': flags, 'code': code, 'data': data}
 
+GOOD_IP6 = ['::', '::1', '2001:db8::1', 'fe80::1', '2001:db8:0:0:1:0:0:1', '1:2:3:4:5:6:7:8', '::ffff:1.2.3.4', '::1.2.3.4',
+            '1:2:3:4:5:6:1.2.3.4', 'FFFF::', '2001:DB8::A', '1::', '1:2:3:4:5:6:7::', '::2:3:4:5:6:7:8', '0:0:0:0:0:0:0:0',
+            '00a:0:0:0:0:0:0:1', '::ffff:102:304', '1::8', '1:0:0:4::8', 'ffff:ffff:ffff:ffff:ffff:ffff:ffff:ffff']
+BAD_IP6 = [':', ':::', '1:::2', '1:2:3:4:5:6:7', '1:2:3:4:5:6:7:8:9', '12345::', 'g::', '::1::', ':1', '1:', '1::2::3', '::1.2.3',
+           '1.2.3.4::', '1:2:3:4:5:6:7:1.2.3.4', '::ffff:1.2.3.4.5', '1:2:3:4:5:6:7:8::', '::1:2:3:4:5:6:7:8', '2001:db8::1/64',
+           '::%eth0', ' ::1', '1:2:3:4:5:1.2.3.4:7', '::01.2.3.4', '::256.1.1.1', '1:2:3:4:5:6:7:', '::1 ', '[::1]']
+
+def v6_rand(rng):
+    x = rng.random()
+    if x < 0.3: return rng.choice([0, 1, 0xffff01020304, 0x20010db8 << 96, (0x20010db8 << 96) | 1, 2 ** 128 - 1, 0xfe80 << 112 | 0x1])
+    groups = [rng.choice([0, 0, 0, 1, 0xa, 0xdb8, 0x2001, 0xffff, rng.randrange(65536)]) for _ in range(8)]
+    a = 0
+    for g in groups: a = (a << 16) | g
+    return a
+
+def ipstr(rng, p_bad=0.2):
+    x = rng.random()
+    if x < p_bad: return S(rng.choice(BAD_IP4 + BAD_IP6))
+    if x < p_bad + 0.4 * (1 - p_bad): return ip4str(rng, 0)
+    return S(rng.choice(GOOD_IP6))
+
+def gen_api_nlri_case(rng):
+    v = rng.choice([1, 1, 1, 2, 2, 2, 0])
+    if v == 0: return {'k': 2, 'api': [0]}
+    s = ipstr(rng)
+    if rng.random() < 0.05: s = s + S('/8')
+    ln = rng.choice([0, 1, 8, 24, 31, 32, 33, 64, 127, 128, 129, 255, 256, 257, 288, 300, 2 ** 32 - 1])
+    if v == 1: return {'k': 2, 'api': [1, s, ln]}
+    nl = rng.choice([0, 1, 1, 1, 2, 3, 5, 9, 10, 11, 40])
+    labels = [rng.choice([0, 3, 100, 2 ** 20 - 1, 2 ** 20, 2 ** 32 - 1, rng.randrange(2 ** 20)]) for _ in range(nl)]
+    return {'k': 2, 'api': [2, labels, s, ln]}
+
+def gen_nlri_case(rng):
+    t = rng.choice([4, 4, 6, 6, 14, 16])
+    bad = rng.random() < 0.08
+    if t in (4, 14):
+        m = rng.choice([0, 1, 8, 9, 24, 31, 32]) if not bad else rng.choice([33, 40, 255])
+        a = u32(rng)
+    else:
+        m = rng.choice([0, 1, 32, 48, 64, 127, 128]) if not bad else rng.choice([129, 200, 255])
+        a = v6_rand(rng)
+    if t in (4, 6): return {'k': 3, 'n': [t, a, m]}
+    nl = rng.choice([1, 1, 2, 3, 5]) if not bad else rng.choice([0, 11])
+    labels = [rng.choice([0, 3, 100, 2 ** 20 - 1, rng.randrange(2 ** 20)]) for _ in range(nl)]
+    return {'k': 3, 'n': [t, labels, a, m]}
+
 def gen_extcom_api(rng):
     t = rng.choice([1, 1, 2, 2, 3, 3, 4, 5, 6, 7, 8, 9, 10, 11, 0, 99])
     b = lambda: rng.random() < 0.5
@@ -278,7 +359,7 @@ def gen_api_case(rng, variant=None):
 class Prop:
     pid = 'C17'
     props_file = 'Props/C17.v'
-    required_theorems = ['attr_roundtrip_up_to_flags', 'attr_roundtrip_core_outside_known', 'attr_roundtrip_core_refuted', 'from_api_total', 'from_api_preserves_wf', 'wire_values_are_wf', 'wf_is_safe_downstream', 'api_accepted_is_safe']
+    required_theorems = ['attr_roundtrip_up_to_flags', 'attr_roundtrip_core_outside_known', 'attr_roundtrip_core_refuted', 'from_api_total', 'from_api_preserves_wf', 'wire_values_are_wf', 'wf_is_safe_downstream', 'api_accepted_is_safe', 'nlri_roundtrip_core', 'net_from_api_preserves_wf', 'nlri_encode_safe']
     correspondence_name = ('Model/Api.v (wire_accept, to_api, from_api, consumers) vs daemon/src/convert.rs attr_to_api/attr_from_api, '
                            'packet Attribute::{decode,as_path_length,encode}, table RibEntry::cmp via Table::insert (harness/daemon/convert_hx.rs)')
     rule = ('cases = (kind 0) one wire attribute (flags, code, value) decoded by PeerCodec::parse_message then round-tripped through the API form; '
@@ -309,11 +390,15 @@ class Prop:
             if x[0] == 9 and x[1] and x[1][0] == 'rep':
                 x = [9, [x[1][1]] * x[1][2]]
             return [1, x]
+        if c['k'] == 2: return [2, c['api']]
+        if c['k'] == 3: return [3, nlri_to_valx(c['n'])]
         raise ValueError(c)
 
     def case_to_coq(self, c):
         if c['k'] == 0: return 'run_wire_case %s %s %s' % (cN(c['flags']), cN(c['code']), cbytes(c['data']))
         if c['k'] == 1: return 'run_api_case %s' % api_to_coq(c['api'])
+        if c['k'] == 2: return 'run_api_nlri_case Debug %s' % api_nlri_to_coq(c['api'])
+        if c['k'] == 3: return 'run_nlri_case %s' % nlri_to_coq(c['n'])
         raise ValueError(c)
 
     # ---- generation
@@ -330,6 +415,16 @@ class Prop:
                 cases.append(gen_api_case(rng, v))
         for _ in range(na):
             cases.append(gen_api_case(rng))
+        nn = 500 if tier == 'quick' else 5000
+        for _ in range(nn):
+            cases.append(gen_api_nlri_case(rng))
+            cases.append(gen_nlri_case(rng))
+        # Ipv6 textual form: every listed spelling through NextHop and Prefix
+        for t in GOOD_IP6 + BAD_IP6:
+            cases.append({'k': 1, 'api': [4, S(t)]})
+            cases.append({'k': 2, 'api': [1, S(t), 64]})
+        for _ in range(nn // 2):
+            cases.append({'k': 0, 'flags': T, 'code': NEXTHOP, 'data': v6bytes(v6_rand(rng))})
         return cases
 
     # ---- running
@@ -377,6 +472,21 @@ class Prop:
                 if d == [-1]:
                     return 'accepted value (code %d) panics %s' % (a[0], names[k])
             return None
+        if c['k'] == 2:
+            if obs[0] == 0:
+                return None
+            why = wf_nlri(obs[1])
+            if why:
+                return 'net_from_api accepted an NLRI outside the wire invariants: ' + why
+            if obs[2] == [-1]:
+                return 'accepted NLRI panics the encoder'
+            return None
+        if c['k'] == 3:
+            if wf_nlri(nlri_to_valx(c['n'])):
+                return None     # not a value a decoder can produce: outside the quantifier
+            if obs[1] != [1, nlri_to_valx(c['n'])]:
+                return 'NLRI round trip: net_from_api(nlri_to_api(n)) %s' % ('rejected' if obs[1] == [0] else 'differs from n')
+            return None
         return None
 
     def in_known_class(self, kf, c, obs, why):
@@ -387,7 +497,11 @@ class Prop:
         return False
 
     def nontrivial_key(self, c, obs):
-        if obs != [-1] and obs and obs[0] == 1:
+        if obs == [-1] or not obs:
+            return None
+        if c['k'] in (0, 1, 2) and obs[0] == 1:
+            return json.dumps(self.case_to_val(c))
+        if c['k'] == 3 and not wf_nlri(nlri_to_valx(c['n'])):
             return json.dumps(self.case_to_val(c))
         return None
 
@@ -399,4 +513,9 @@ class Prop:
         if c['k'] == 1:
             st = 'panic' if obs == [-1] else 'accepted' if obs[0] == 1 else 'rejected'
             return ['api', 'api:%s:%s' % (API_NAMES.get(c['api'][0], 'other'), st)]
+        if c['k'] == 2:
+            st = 'panic' if obs == [-1] else 'accepted' if obs[0] == 1 else 'rejected'
+            return ['api_nlri', 'api_nlri:%s:%s' % ({0: 'missing', 1: 'prefix', 2: 'labeled'}.get(c['api'][0]), st)]
+        if c['k'] == 3:
+            return ['nlri', 'nlri:%d:%s' % (c['n'][0], 'wf' if not wf_nlri(nlri_to_valx(c['n'])) else 'not_decodable')]
         return []
